@@ -18,12 +18,25 @@ ENGINES = [
     {"name": "Moves.tla", "path": "/verif/spec/Moves.tla", "serves_properties": ["C04", "C07"], "kind_free_text": "exact F_p kernels of data-point, prune-regraft and (ideal-inner) subtree moves"},
     {"name": "TreeADT.tla", "path": "/verif/spec/TreeADT.tla", "serves_properties": ["C06", "C07", "C15"], "kind_free_text": "implementation-shaped Tree ADT with symbolic cache signatures under the sampler edit grammar; TraceTreeADT.tla validates recorded steps"},
     {"name": "GridRec.tla", "path": "/verif/spec/GridRec.tla", "serves_properties": ["C02", "C06", "C10", "C03"], "kind_free_text": "CCF-grid sum-product / max-product: definition vs implemented recursion; GridOracle.tla dumps exact integer vectors"},
+    {"name": "Density.tla", "path": "/verif/spec/Density.tla", "serves_properties": ["C03"], "kind_free_text": "FS-CRP joint density as a symbolic record of the abstract state"},
     {"name": "Forests.tla", "path": "/verif/spec/Forests.tla", "serves_properties": ["C01", "C03", "C04", "C06", "C07", "C08", "C09", "C11", "C12", "C16"], "kind_free_text": "canonical forest universe"},
 ]
 
 NOT_APPLICABLE = {}
 
 CHECKS = {
+    "C10": {
+        "engine": "GridRec.tla",
+        "category": "model_checking",
+        "technique": "TLC proves max-product forward pass = definitional optimum on every forest and emits it; reported CCFs checked for grid membership, feasibility, exact optimality",
+        "design_ref": "DESIGN.md 5 C10",
+        "text": "On every forest over <=4 (quick) / <=5 (thorough) data points with integer log-likelihood tables full of ties TLC proves that the "
+                "implemented max-plus recursion attains the maximum over all feasible CCF-index assignments and prints that optimum per sample; "
+                "get_map_node_ccfs_and_clonal_prev_dicts is run on the same instances as real trees (three construction histories, 1-3 samples, "
+                "grids 3-6): CCFs must be grid points, feasible in every sample, score exactly the optimum, and clonal prevalence must be CCF "
+                "minus children and non-negative.",
+        "note": "Trusted: TLC, the tree builder. The traceback itself is judged by its output (feasible + optimal), not modelled step by step.",
+    },
     "C01": {
         "engine": "PGibbs.tla",
         "category": "model_checking",
@@ -50,6 +63,20 @@ CHECKS = {
                 "and data_log_likelihood is compared entry-wise (1e-9 above the floor zone, not-below-exact and finite in it, the property's "
                 "1e-6-of-peak rule on the FFT path).",
         "note": "Trusted: TLC integer arithmetic (loud overflow), big-integer evaluation of TLC's polynomials at B=10^-m, the tree builder. Arbitrary real-valued rows beyond these families are not covered.",
+    },
+    "C03": {
+        "engine": "Density.tla",
+        "category": "model_checking",
+        "technique": "TLC derives the FS-CRP feature record of every forest from its clade family and the exact data terms; real densities of many constructions compared with the model value",
+        "design_ref": "DESIGN.md 5 C03",
+        "text": "TLC walks every forest on <=3 (quick) / <=4 (thorough) data points with any outlier subset, derives the model's symbolic record "
+                "(K, clone sizes, top-level subtree sizes, child counts incl. the virtual root, outliers) from the clades alone, checks its "
+                "consistency, and GridOracle.tla supplies the exact integer data terms and outlier marginals. For each state 4-5 concrete "
+                "constructions (different build orders, relabelled copy, dict round trip, moved-and-back) are evaluated with log_p, log_p_one, "
+                "the fused computation and the particle holder for 5 alpha values (fresh objects and the alpha setter of a reused object), 4 "
+                "outlier-prior / cluster-size settings, and must equal the record evaluated with lgamma/log (1e-9); ==/hash must agree with "
+                "equality of abstractions.",
+        "note": "Trusted: TLC, lgamma/log evaluation of the record by the harness, integer likelihood tables. p=1 excluded.",
     },
     "C04": {
         "engine": "Moves.tla",
